@@ -10,6 +10,7 @@ import (
 	"fmt"
 	"io"
 	"net"
+	"os"
 	"sync"
 	"sync/atomic"
 	"time"
@@ -46,20 +47,21 @@ type shOp struct {
 }
 
 type shScenario struct {
-	Kind          ClientKind
-	Callers       [][]shOp
-	CloseAt       time.Duration // <0: no Close task
-	ConnectAt     time.Duration // <0: no Connect task
-	DevDelay      time.Duration // max device think time
-	Race          bool
-	Cancels       bool // some calls carry short context deadlines (stale replies follow: attribution oracles off, transport monitors on)
-	FineGrained   bool
-	Flusher       bool
-	Hooks         bool          // logging hooks installed on the client; every hook call is a scheduling point
-	Close2After   time.Duration // >=0: a second Close call that long after the first
-	SlowOps       bool          // dialling and closing the port take (a little) time and are scheduling points
-	UnitBase      int           // caller i uses unit id UnitBase+i (0: the first caller addresses unit 0)
-	ShortTimeouts bool          // network client with ReadTimeout 20 ms / WriteTimeout 2 ms (the device answers within 3 ms)
+	Kind           ClientKind
+	Callers        [][]shOp
+	CloseAt        time.Duration // <0: no Close task
+	ConnectAt      time.Duration // <0: no Connect task
+	DevDelay       time.Duration // max device think time
+	Race           bool
+	Cancels        bool // some calls carry short context deadlines (stale replies follow: attribution oracles off, transport monitors on)
+	FineGrained    bool
+	Flusher        bool
+	Hooks          bool          // logging hooks installed on the client; every hook call is a scheduling point
+	Close2After    time.Duration // >=0: a second Close call that long after the first
+	SlowOps        bool          // dialling and closing the port take (a little) time and are scheduling points
+	TimeoutErrKind int           // how the transport reports a read timeout: 0 the bare sentinel, 1 *net.OpError, 2 a %w-annotated error
+	UnitBase       int           // caller i uses unit id UnitBase+i (0: the first caller addresses unit 0)
+	ShortTimeouts  bool          // network client with ReadTimeout 20 ms / WriteTimeout 2 ms (the device answers within 3 ms)
 }
 
 type shRec struct {
@@ -164,6 +166,7 @@ func genC14(t *Tape) *shScenario {
 		sc.Close2After = time.Duration(t.Choose(400)) * time.Microsecond
 	}
 	sc.SlowOps = t.Choose(2) == 0
+	sc.TimeoutErrKind = t.Choose(3)
 	sc.UnitBase = 1 - t.Choose(4)/3 // 0 in a quarter of the runs
 	sc.ShortTimeouts = sc.Kind != KSerial && !sc.Cancels && t.Choose(3) == 0
 	return sc
@@ -305,6 +308,12 @@ func runShared(rc *RunCtx, sc *shScenario) *shOutcome {
 		cl, dev := NewPipe(s, fmt.Sprintf("p%d", k))
 		cl.Name = fmt.Sprintf("p%d.cli", k)
 		cl.YieldSetDeadline = sc.FineGrained
+		switch sc.TimeoutErrKind {
+		case 1:
+			cl.TimeoutErr = &net.OpError{Op: "read", Net: "sim", Err: os.ErrDeadlineExceeded}
+		case 2:
+			cl.TimeoutErr = fmt.Errorf("conn wrapper: %w", os.ErrDeadlineExceeded) // an annotating wrapper: no Timeout method of its own
+		}
 		dev.Name = fmt.Sprintf("p%d.dev", k)
 		if !sc.Race {
 			reading := 0
